@@ -265,6 +265,41 @@ func init() {
 				})
 			}
 		}
+		c.Phase("template-lookalikes") // scripts of a template's exact length whose head is a wider push, and template instances whose key hash contains the bytes a recogniser searches for
+		n = 0
+		{
+			next := func() bool { n++; return c.Case(n) }
+			tail := []byte{0x88, 0xac}
+			for rep := 0; rep < 3; rep++ {
+				for _, head := range [][]byte{{0x76, 0xa9, 0x4c, 0x14}, {0x76, 0xa9, 0x4d, 0x14, 0x00}, {0x76, 0xa9, 0x4e, 0x14, 0x00, 0x00, 0x00}, {0x76, 0xa9, 0x4c, 0x13}, {0x76, 0xa9, 0x13}, {0x76, 0xa9, 0x15}} {
+					if !next() {
+						continue
+					}
+					r := c.Rand(n)
+					sc := c14Cat(head, r.Bytes(25-len(head)-2), tail)
+					judge(c, &c14Script{Script: sc, Class: "lookalike:p2pkh-length-with-other-push"})
+					judge(c, &c14Script{Script: c14Cat(sc, []byte{0x00, 0x63, 0x03, 'o', 'r', 'd', 0x51, 0x01, 'a', 0x00, 0x01, 'b', 0x68}), Class: "lookalike:inscription-on-other-push"})
+				}
+			}
+			marker := []byte{0x00, 0x63, 0x03, 'o', 'r', 'd'}
+			for off := 0; off+len(marker) <= 20; off++ {
+				for _, withTail := range []bool{false, true} {
+					if !next() {
+						continue
+					}
+					r := c.Rand(n)
+					h := r.Bytes(20)
+					copy(h[off:], marker)
+					p2pkh := c14Cat([]byte{0x76, 0xa9, 0x14}, h, tail)
+					judge(c, &c14Script{Script: p2pkh, Class: "instance:p2pkh-hash-holds-envelope-marker"})
+					ins := c14Cat(p2pkh, []byte{0x00, 0x63, 0x03, 'o', 'r', 'd', 0x51}, refcodec.MinimalPush([]byte("text/plain")), []byte{0x00}, refcodec.MinimalPush(r.Bytes(1+r.Intn(40))), []byte{0x68})
+					if withTail {
+						ins = c14Cat(ins, []byte{0x6a}, refcodec.MinimalPush(r.Bytes(1+r.Intn(12))))
+					}
+					judge(c, &c14Script{Script: ins, Class: "instance:inscription-hash-holds-envelope-marker"})
+				}
+			}
+		}
 		c.Phase("all-m-of-n") // every bare multisig template 1 <= m <= n <= 16, compressed and uncompressed keys
 		n = 0
 		for nn := 1; nn <= 16; nn++ {
